@@ -288,7 +288,11 @@ def specOp (op : String) (a : List Arg) (p : List Nat) : Option BV4 :=
     let pa := polOfChar (pp.toList.getD 0 'n'); let pb := polOfChar (pp.toList.getD 1 'n')
     match isArithName name, isLogicName name, isCmpName name with
     | some aop, _, _ =>
-      if aop == .MUL ∧ t 0 == 's' then do let (x', y', w) ← Spec.norm pa pb (v 0) (v 1); pure (Spec.smul w x' y')
+      if aop == .MUL ∧ t 0 == 's' then
+        -- the product of the two's-complement readings of the operands as they are, modulo 2^max(widths); with different
+        -- widths the operator takes the sign bits, which an empty operand does not have
+        (if (v 0).length ≠ (v 1).length ∧ ((v 0).isEmpty ∨ (v 1).isEmpty) then none
+         else some (Spec.smul (max (v 0).length (v 1).length) (v 0) (v 1)))
       else binArith aop pa pb (v 0) (v 1)
     | _, some lop, _ => binLogic lop pa pb (v 0) (v 1)
     | _, _, some cop =>
